@@ -42,6 +42,6 @@ Ground rules:
   - You MUST verify yourself: (a) `go build ./...` succeeds with the change; (b) the demo fails with the change and passes without it (run it 3 times each way to be sure it is deterministic); (c) the existing suite passes with the change: run `cd {wt} && GOMAXPROCS=4 go test -mod=mod -p 1 -vet=off -count=1 -timeout 40m ./...` (takes 7-12 minutes; the test TestProtosRegenerate in package pb always fails in this sandbox, ignore it; remove your demo file before running the suite). Other agents share this machine, so if some other test fails, re-run just that test once or twice to rule out load-related flakiness before giving up on a change; if an existing test genuinely fails, pick a different change.
   - Keep only one change applied at a time (save it with `git diff > patch.diff`, undo with `git checkout -- .`, re-apply with `git apply patch.diff`; NEVER use `git stash` - the stash is shared between worktrees of other agents). Leave the worktree clean (no changes applied) when you finish.
   - Do not modify existing test files. Do not weaken or delete functionality wholesale (e.g. do not make a function a no-op if any ordinary use would notice immediately).
-@@AVOID@@  - Your final message should be a short summary: for each change, one sentence on what it is and whether (a),(b),(c) were all confirmed. If you could only produce one verified change, say so.
+@@AVOID@@  - Your final message should be a short summary: for each change, one sentence on what it is and whether (a),(b),(c) were all confirmed. If you could only produce one verified change, say so. Finally, if while reading the code you noticed anything in the UNMODIFIED baseline that looks like a genuine violation of this property (a history, option combination or interleaving under which it would not hold), describe it in 2-4 lines at the end (untested is fine; say that it is untested).
 """)
 print(text.replace("@@AVOID@@", (avoid.strip("\n")+"\n") if avoid else ""))
